@@ -96,12 +96,49 @@ def _worker_loop(fn, conn):
             conn.send((idx, rr))
 
 
+TIER = [None]          # set by checks.common.tier_budget(): the tier of the run in progress
+
+
+def family(it):
+    """The family a work item belongs to: its kind and the stem of its tag (core-s2-17 -> core, loops-5[pop] -> loops)."""
+    import re
+    if not isinstance(it, dict):
+        return ''
+    c = it.get('case')
+    tag = getattr(c, 'tag', None) or it.get('tag') or it.get('label') or it.get('scenario') or it.get('script') or ''
+    stem = re.sub(r'[-\[( ].*$', '', str(tag))
+    flags = ''.join(k for k in ('loop', 'timeat', 'tail', 'before', 'after', 'runs', 'api', 'max_age', 'what') if it.get(k))
+    if stem or it.get('kind') or flags:
+        return '%s|%s|%s' % (it.get('kind', ''), stem, flags if 'tail' not in flags else 'tail:%s' % it.get('tail'))
+    return '|'.join(sorted(k for k in it if k not in ('timeout_ms', 'max_paths', 'budget_s')))
+
+
+def interleave(items):
+    """Thorough tiers have more work than budget: instead of cutting whole families of items off the end of the list,
+    take the first item of every family, then the second of every family, and so on -- small directed families are
+    finished early, the large sampled ones are cut at their tails."""
+    fams = {}
+    for it in items:
+        fams.setdefault(family(it), []).append(it)
+    out = []
+    depth = 0
+    lists = list(fams.values())
+    while len(out) < len(items):
+        for l in lists:
+            if depth < len(l):
+                out.append(l[depth])
+        depth += 1
+    return out
+
+
 def run_pool(fn, items, procs=None, budget_s=None, hard_item_s=None):
     """Runs fn(item)->WorkResult over items in forked worker processes.  Stops
     handing out new items after budget_s.  A worker that dies or exceeds
     hard_item_s is replaced and its item reported as a worker error (never a
     silent loss).  Returns (results, n_skipped)."""
     from multiprocessing.connection import wait
+    if TIER[0] == 'thorough':
+        items = interleave(items)
     procs = procs or min(16, os.cpu_count() or 4)
     if os.environ.get('VERIF_PROCS'):
         procs = int(os.environ['VERIF_PROCS'])
